@@ -149,6 +149,9 @@ def module_source(curve):
         A("            \"recode:%s\" => { %s return vec![sd.iter().map(|x| *x as u8).collect()]; }" % (rname, call))
     if not d.get("wrap"):
         A("            \"vt\" => { let su = Scalar::decode_reduce(&a[a.len() - 2]); let sv = Scalar::decode_reduce(&a[a.len() - 1]); P.set_mul_add_mulgen_vartime(&su, &sv); }")
+    if curve == "gls254":
+        A("            \"vt64\" => { let u0 = u64::from_le_bytes(<[u8; 8]>::try_from(&a[a.len() - 3][..8]).unwrap()); let u1 = u64::from_le_bytes(<[u8; 8]>::try_from(&a[a.len() - 2][..8]).unwrap()); let sv = Scalar::decode_reduce(&a[a.len() - 1]); P.set_mul64mu_add_mulgen_vartime(u0, u1, &sv); }")
+        A("            \"mu\" => { P.set_mul(&Scalar::MU); }")
     if curve in ("jq255e", "jq255s"):
         A("            \"vt128\" => { let su = u128::from_le_bytes(<[u8; 16]>::try_from(&a[a.len() - 2][..16]).unwrap()); let sv = Scalar::decode_reduce(&a[a.len() - 1]); P.set_mul128_add_mulgen_vartime(su, &sv); }")
     for tname, (lay, fs) in TABLES.get(curve, {}).items():
